@@ -16,7 +16,7 @@ RULE = ("(a) every name (7 letters x up to 2 sharps/flats = 35) x octaves 0..9 (
         "every step against shadow Note copies (lifting differential) and, for ordinary names, the arithmetic. Non-trivial: a "
         "transposition that crosses an octave boundary (incl. Cb/B# spellings, descending from C); a history of >= 3 steps or one "
         "on a bar holding both a rest and a chord."
-        ' Also: tracks built by Track.from_chords (repeated symbols, nesting, rests), melodic sequences moved by the interval the history then uses, enharmonic twin bars, tracks with an instrument attached, keyword / default direction forms; chords that are not in ascending order and entries held in a user subclass of NoteContainer.')
+        ' Also: tracks built by Track.from_chords (repeated symbols, nesting, rests), melodic sequences moved by the interval the history then uses, enharmonic twin bars, tracks with an instrument attached, keyword / default direction forms; chords that are not in ascending order and entries held in a user subclass of NoteContainer; change_octave / octave_up / octave_down on notes that transposition has taken below octave 0.')
 ASSUMPTIONS = ["downward transposition is generated from octave >= 1 (the statement does not say what happens below octave 0)",
                "the pitch/letter arithmetic is asserted for names with <= 2 unmixed accidentals (the statement's name domain); "
                "names outside it that arise inside histories are covered by the Note-level differential only",
@@ -62,8 +62,32 @@ def check_note(ctx, case):
     ctx.note_case(crossing or name[1:] in ("b", "#") and name[0] in "CBEF", ["note:" + ("up" if up else "down") + (":crossing" if crossing else "")])
 
 
+def _note_at(name, octave):
+    """a note in the given octave; octaves below 0 cannot be constructed, they are reached by transposing down from octave 0
+    (a fifth and then a fourth down is an octave down on the same name)"""
+    if octave >= 0:
+        return Note(name, octave)
+    n = Note(name, 0)
+    for _ in range(-octave):
+        n.transpose("5", False)
+        n.transpose("4", False)
+    return n if (n.name, n.octave) == (name, octave) else None
+
+
 def check_octave(ctx, case):
     name, octave, diff = case
+    if octave < 0:
+        n, n2, n3 = _note_at(name, octave), _note_at(name, octave), _note_at(name, octave)
+        if n is None:
+            return ctx.note_case(False, ["octave:negative-start-not-reached"])
+        ctx.ok("change_octave", n.change_octave, diff)
+        ctx.check(n.octave == max(0, octave + diff) and n.name == name, "change_octave",
+                  lambda: "%r (reached by transposing down from octave 0) -> octave %r, expected %d" % (case, n.octave, max(0, octave + diff)))
+        n2.octave_up()
+        n3.octave_down()
+        ctx.check(n2.octave == max(0, octave + 1) and n3.octave == 0, "octave_up_down",
+                  lambda: "%r: octave_up -> %r, octave_down -> %r, expected 0 and 0" % (case, n2.octave, n3.octave))
+        return ctx.note_case(True, ["octave:negative-start"])
     n = Note(name, octave)
     ctx.ok("change_octave", n.change_octave, diff)
     ctx.check(n.octave == max(0, octave + diff) and n.name == name, "change_octave", lambda: "%r -> %r" % (case, n.octave))
@@ -213,8 +237,8 @@ def sub_notes(ctx, shard, n):
         ctx.exhaustive("Note.transpose: names x octaves x shorthands x direction", "35 x 0..9 (down 1..9) x 31 x 2", len(cases))
     ctx.enumerate("note", check_note, cases[shard::n])
     if shard == 0:
-        oc = [[nm, o, d] for nm in ("C", "F#", "Bb") for o in range(0, 10) for d in range(-15, 16)]
-        ctx.exhaustive("change_octave", "3 names x octaves 0..9 x diffs -15..15", len(oc))
+        oc = [[nm, o, d] for nm in ("C", "F#", "Bb") for o in range(-4, 10) for d in range(-15, 16)]
+        ctx.exhaustive("change_octave", "3 names x octaves -4..9 (negative ones reached by transposing down) x diffs -15..15", len(oc))
         ctx.enumerate("octave", check_octave, oc)
 
 
